@@ -9,6 +9,9 @@ import (
 
 	"github.com/hashicorp/raft"
 	wal "github.com/hashicorp/raft-wal"
+	"github.com/hashicorp/raft-wal/fs"
+	"github.com/hashicorp/raft-wal/segment"
+	"github.com/hashicorp/raft-wal/types"
 
 	"verifharness/kit"
 	"verifharness/refmodel"
@@ -30,6 +33,49 @@ type Workload struct {
 	Retry bool `json:"retry,omitempty"`
 	// RetryReopen: before the retry the WAL is closed and opened again (process restart).
 	RetryReopen bool `json:"retryReopen,omitempty"`
+	// Filer: when set, the workload drives segment.Filer over the production fs directly
+	// (Create + one committed batch, Delete, repeated Delete) instead of a WAL.
+	Filer []FilerOp `json:"filer,omitempty"`
+}
+
+// FilerOp is one call on the production segment filer.
+type FilerOp struct {
+	K    string `json:"k"` // create, delete
+	ID   uint64 `json:"id"`
+	Base uint64 `json:"base"`
+	N    int    `json:"n,omitempty"` // entries committed right after creation
+}
+
+// RunFiler executes the filer ops in dir; a call that returns an error is marked "err" and the
+// workload goes on (a later op may retry it).
+func (r *Runner) RunFiler(w Workload, dir string) error {
+	sf := segment.NewFiler(dir, fs.New())
+	for i, op := range w.Filer {
+		step := i + 1
+		info := types.SegmentInfo{ID: op.ID, BaseIndex: op.Base, MinIndex: op.Base, SizeLimit: uint32(w.SegSize), Codec: 1}
+		name := segment.FileName(info)
+		switch op.K {
+		case "create":
+			_ = r.call(step, "FilerCreate:"+name, func() error {
+				sw, err := sf.Create(info)
+				if err != nil {
+					return err
+				}
+				defer sw.Close()
+				var es []types.LogEntry
+				for j := 0; j < op.N; j++ {
+					es = append(es, types.LogEntry{Index: op.Base + uint64(j), Data: kit.Fill(24, uint8(step), op.Base+uint64(j), 3)})
+				}
+				if len(es) == 0 {
+					return nil
+				}
+				return sw.Append(es)
+			})
+		case "delete":
+			_ = r.call(step, "FilerDelete:"+name, func() error { return sf.Delete(op.Base, op.ID) })
+		}
+	}
+	return nil
 }
 
 // Runner executes a workload step by step; Mark is called around every API call.
